@@ -32,9 +32,11 @@ def generate(seed, tier, prop):
         pos = r.choice([32, 64, 100, N])
         neg = r.choice([None, None, 32, 50, pos])
         epochs = min(epochs, 2)
+    se = r.choice([1, 1, 1, 2, 3, 5])
     tc = {
-        "epochs": epochs,
-        "starting_epoch": 1,
+        "epochs": se - 1 + epochs,
+        "starting_epoch": se,
+        "arg_types": r.choice(["python", "python", "python", "numpy"]),
         "pos_bs": pos,
         "neg_bs": neg,
         "k": r.choice(ks),
@@ -43,7 +45,7 @@ def generate(seed, tier, prop):
         "call_form": r.choice(["keyword", "keyword", "positional"]),
     }
     nb = ceil(N / pos)
-    total = 2 + epochs * (2 + 2 * nb)
+    total = 2 + epochs * (2 + 2 * nb)  # (epochs = number of epochs of the run, whatever the starting epoch)
     faults = []
     m = r.random()
     if m < 0.15:
@@ -60,16 +62,19 @@ def generate(seed, tier, prop):
             "train": tc,
             # "default": optimizer= not passed at all; "sgd_plain": the genuine torch.optim.SGD class is passed
             # (both observed only through callbacks); the others are recording subclasses of real optimizers
-            "optimizer": r.choice(["sgd", "sgd", "sgd", "sgd_momentum", "adam", "default", "default", "sgd_plain"]) if prop == "C06" else r.choice(["sgd", "default"]),
+            "optimizer": r.choice(["sgd", "sgd", "sgd_args", "sgd_momentum", "adam", "default", "default", "sgd_plain"]) if prop == "C06" else r.choice(["sgd", "default"]),
             "scheduler": r.choice([None, None, "step", "exp"]) if prop == "C06" else None,
             "gamma": r.choice([0.5, 0.9]),
             "rng_mode": r.choice(["honest", "honest", "rare"]),
             "perm_mode": r.choice(["honest", "honest", "honest", "identity", "reverse", "transpose"]),
             "randint_mode": r.choice(["honest", "honest", "honest", "allequal"]),
+            # the reference-basis filter applied to a dataset of any size (the negative phase draws from its output)
+            "refbasis_direct": ({"N": r.choice([1, 7, 50, 4097, 32769, 40000, 70001]), "dseed": P.s64(r), "nv": r.randint(1, 3)} if (prop == "C07" and r.random() < 0.04) else None),
             "second_fit": r.random() < 0.3,
             # what the caller does between the two training runs
             "between": r.choice(["none", "none", "reinit", "randomise", "refill_data"]),
             "between_seed": P.s64(r),
+            "lr2": r.choice([1e-3, 0.05, 0.5]),  # the second training run uses another learning rate
         },
         "faults": faults,
     }
@@ -122,6 +127,8 @@ def execute(plan, prop):
 
         fits = []
         nfits = 2 if cfg.get("second_fit") else 1
+        shared_opt_args = {"momentum": 0.0, "dampening": 0.0}  # the caller's dict, passed to every fit of the run
+        shared_opt_args_copy = dict(shared_opt_args)
         for fi in range(nfits):
             log_start = len(run.log.entries)
             initial = params_snapshot(state)
@@ -238,8 +245,11 @@ def execute(plan, prop):
             rec = OptRecorder(run, state)
             cap = BatchCapture(run, state, before_batch=before_batch, after_batch=after_batch)
             opt_name = cfg.get("optimizer", "sgd")
-            base_opt = {"sgd": torch.optim.SGD, "sgd_momentum": torch.optim.SGD, "adam": torch.optim.Adam}.get(opt_name)
-            opt_args = {"momentum": 0.5} if opt_name == "sgd_momentum" else None
+            base_opt = {"sgd": torch.optim.SGD, "sgd_args": torch.optim.SGD, "sgd_momentum": torch.optim.SGD, "adam": torch.optim.Adam}.get(opt_name)
+            opt_args = {"momentum": 0.5} if opt_name == "sgd_momentum" else (shared_opt_args if opt_name == "sgd_args" else None)
+            tc = dict(cfg["train"])
+            if fi > 0:
+                tc["lr"] = cfg.get("lr2", tc["lr"])
             if opt_name == "default":
                 opt_cls = None
             elif opt_name == "sgd_plain":
@@ -268,14 +278,35 @@ def execute(plan, prop):
                 )
             rng.listeners.remove(rng_listener)
             seamed = rng.check_global()
-            fits.append(dict(unchanged_after=data_unchanged(), data_np=data_np.copy(), bases_copy=None if bases_copy is None else bases_copy.copy(), cb_steps=cb_steps, final=params_snapshot(state), info=info, cap=cap, rec=rec, refs=refs, epoch_of_record=epoch_of_record, initial=initial, mutated=mutated, seamed=seamed, sched=sched, opt_name=opt_name, log_start=log_start, log_end=len(run.log.entries)))
+            fits.append(dict(tc=tc, unchanged_after=data_unchanged(), data_np=data_np.copy(), bases_copy=None if bases_copy is None else bases_copy.copy(), cb_steps=cb_steps, final=params_snapshot(state), info=info, cap=cap, rec=rec, refs=refs, epoch_of_record=epoch_of_record, initial=initial, mutated=mutated, seamed=seamed, sched=sched, opt_name=opt_name, log_start=log_start, log_end=len(run.log.entries)))
 
+    if judge07 and cfg.get("refbasis_direct"):
+        rd = cfg["refbasis_direct"]
+        g3 = np.random.Generator(np.random.PCG64(rd["dseed"]))
+        Nn, nvv = rd["N"], rd["nv"]
+        smp = torch.tensor(g3.integers(0, 2, size=(Nn, nvv)).astype(np.float64), dtype=torch.double)
+        # the row value encodes the row index so that provenance is visible
+        smp[:, 0] = torch.arange(Nn, dtype=torch.double)
+        bs_ = np.where(g3.random((Nn, nvv)) < 0.7, "Z", "X").astype("<U1")
+        try:
+            from qucumber.utils.data import extract_refbasis_samples
+
+            got = extract_refbasis_samples(smp, bs_).numpy()
+            want_rows = smp.numpy()[(bs_ == "Z").all(axis=1)]
+            if got.shape != want_rows.shape or not np.array_equal(got, want_rows):
+                run.violate("7-neg", f"reference-basis filter on {Nn} rows returned {got.shape[0]} rows, {want_rows.shape[0]} rows are measured entirely in the reference basis (or rows differ)", N=Nn)
+            run.probes["refbasis_direct"] += 1
+        except Exception as exc:  # noqa: BLE001
+            run.lib_exception(exc, "extract_refbasis_samples", N=Nn)
+    if judge06 and shared_opt_args != shared_opt_args_copy:
+        run.violate("6-args", f"fit modified the caller's optimizer_args dict: {shared_opt_args}")
     trace_all = []
     nontrivial_any = False
     for fi, F in enumerate(fits):
         info, cap, rec, refs, epoch_of_record, initial, mutated, seamed, sched, opt_name = (F[k] for k in ("info", "cap", "rec", "refs", "epoch_of_record", "initial", "mutated", "seamed", "sched", "opt_name"))
         log_entries = run.log.entries[F["log_start"] : F["log_end"]]
         data_np, bases_snap = F["data_np"], F["bases_copy"]  # the caller's data as it was during this run
+        tc = F["tc"]
         if info["raised"] is not None:
             run.lib_exception(info["raised"], "fit", N=N, type=scfg["type"], pos_bs=tc["pos_bs"], neg_bs=tc.get("neg_bs"))
         items, _ = protocol.extract(run, 1, upto=F["log_end"], frm=F["log_start"])
@@ -401,7 +432,7 @@ def execute(plan, prop):
         if judge06 and info["raised"] is None:
             recording = opt_name not in ("default", "sgd_plain")
             steps = rec.steps if recording else F["cb_steps"]
-            plain_sgd = opt_name in ("sgd", "default", "sgd_plain")
+            plain_sgd = opt_name in ("sgd", "sgd_args", "default", "sgd_plain")
             names = [(net, name) for net, name, _ in rec.named()]
             # --- call schedule: exactly one optimizer.step between BS and its BE; one scheduler.step per epoch
             seqk = []
@@ -547,7 +578,7 @@ def execute(plan, prop):
                 run.violate("6-steps", f"{len(steps)} optimizer steps for {len(records)} batches")
 
         if info["raised"] is None:
-            protocol.judge(run, items, tc["starting_epoch"], tc["epochs"], N, tc["pos_bs"], flag_after=info["flag_after"])
+            protocol.judge(run, items, tc["starting_epoch"], tc["epochs"], N, tc["pos_bs"], flag_after=info["flag_after"], digest_before=info.get("digest_before"), digest_after=info.get("digest_after"))
         trace_all.append(trace)
         run.sim["epochs"] += sum(1 for it in evs if it[1] == "ES")
         run.sim["batches"] += n_bs
